@@ -670,7 +670,15 @@ where
                                 .reason_code(DisconnectReasonCode::KeepAliveTimeout)
                                 .build()
                             {
-                                events.extend(self.process_send_v5_0_disconnect(disconnect));
+                                if self.validate_maximum_packet_size_send(disconnect.size()) {
+                                    events.extend(self.process_send_v5_0_disconnect(disconnect));
+                                } else {
+                                    // DISCONNECT does not fit the peer's maximum packet size:
+                                    // discard it and close as if it had been sent.
+                                    self.status = ConnectionStatus::Disconnected;
+                                    self.cancel_timers(&mut events);
+                                    events.push(GenericEvent::RequestClose);
+                                }
                             }
                         }
                     }
@@ -695,7 +703,15 @@ where
                                 .reason_code(DisconnectReasonCode::KeepAliveTimeout)
                                 .build()
                             {
-                                events.extend(self.process_send_v5_0_disconnect(disconnect));
+                                if self.validate_maximum_packet_size_send(disconnect.size()) {
+                                    events.extend(self.process_send_v5_0_disconnect(disconnect));
+                                } else {
+                                    // DISCONNECT does not fit the peer's maximum packet size:
+                                    // discard it and close as if it had been sent.
+                                    self.status = ConnectionStatus::Disconnected;
+                                    self.cancel_timers(&mut events);
+                                    events.push(GenericEvent::RequestClose);
+                                }
                             }
                         }
                     }
